@@ -987,6 +987,15 @@ static void runC37(Case& c) {
 
 // ------------------------------------------------------------------------------------------------
 // C41 SmallBufferAllocator
+struct CanaryRef { // relaxed atomic access to the first words of a block
+  uint32_t* p;
+  uint32_t get(int i) const {
+    return __atomic_load_n(p + i, __ATOMIC_RELAXED);
+  }
+  void set(int i, uint32_t v) const {
+    __atomic_store_n(p + i, v, __ATOMIC_RELAXED);
+  }
+};
 template <size_t N>
 static void sbaOps(Case& c, const std::vector<std::string>& ops, std::vector<char*>& mine, std::atomic<char*>* mailbox, int nMail, std::map<char*, int>* /*unused*/,
                    std::atomic<int>& liveBlocks, int threadIdx) {
@@ -996,11 +1005,11 @@ static void sbaOps(Case& c, const std::vector<std::string>& ops, std::vector<cha
       VF_CHECK(c, p != nullptr, "alloc-null", "allocSmallBuffer returned nullptr");
       VF_CHECK(c, reinterpret_cast<uintptr_t>(p) % N == 0, "block-misaligned", "allocSmallBuffer<%zu> returned a block that is not aligned to %zu", N, N);
       // canary: a live block must not carry another live block's mark
-      uint32_t* w = reinterpret_cast<uint32_t*>(p);
-      VF_CHECK(c, N < 8 || w[0] != 0xA110CA7Eu, "block-handed-out-twice", "allocSmallBuffer<%zu> returned a block that is still live (canary of another owner present)", N);
+      volatile uint32_t* w0 = reinterpret_cast<uint32_t*>(p); (void)w0; CanaryRef w{reinterpret_cast<uint32_t*>(p)};
+      VF_CHECK(c, N < 8 || w.get(0) != 0xA110CA7Eu, "block-handed-out-twice", "allocSmallBuffer<%zu> returned a block that is still live (canary of another owner present)", N);
       if (N >= 8) {
-        w[0] = 0xA110CA7Eu;
-        w[1] = (uint32_t)threadIdx;
+        w.set(0, 0xA110CA7Eu);
+        w.set(1, (uint32_t)threadIdx);
       }
       liveBlocks.fetch_add(1);
       mine.push_back(p);
@@ -1010,9 +1019,9 @@ static void sbaOps(Case& c, const std::vector<std::string>& ops, std::vector<cha
       char* p = mine.back();
       mine.pop_back();
       if (N >= 8) {
-        uint32_t* w = reinterpret_cast<uint32_t*>(p);
-        VF_CHECK(c, w[0] == 0xA110CA7Eu && w[1] == (uint32_t)threadIdx, "block-overwritten", "a live block's canary was overwritten (block shared with another owner)");
-        w[0] = 0;
+        volatile uint32_t* w0 = reinterpret_cast<uint32_t*>(p); (void)w0; CanaryRef w{reinterpret_cast<uint32_t*>(p)};
+        VF_CHECK(c, w.get(0) == 0xA110CA7Eu && w.get(1) == (uint32_t)threadIdx, "block-overwritten", "a live block's canary was overwritten (block shared with another owner)");
+        w.set(0, 0);
       }
       liveBlocks.fetch_sub(1);
       dispenso::deallocSmallBuffer<N>(p);
@@ -1025,16 +1034,16 @@ static void sbaOps(Case& c, const std::vector<std::string>& ops, std::vector<cha
       if (mailbox[slot].compare_exchange_strong(expected, p)) {
         mine.pop_back();
         if (N >= 8)
-          reinterpret_cast<uint32_t*>(p)[1] = 0xFFFFFFFFu; // owner: mailbox
+          CanaryRef{reinterpret_cast<uint32_t*>(p)}.set(1, 0xFFFFFFFFu); // owner: mailbox
       }
     } else if (op[0] == 'r') { // take a block from the mailbox and free it here (cross-thread dealloc)
       int slot = (op[1] - '0') % nMail;
       char* p = mailbox[slot].exchange(nullptr);
       if (p) {
         if (N >= 8) {
-          uint32_t* w = reinterpret_cast<uint32_t*>(p);
-          VF_CHECK(c, w[0] == 0xA110CA7Eu && w[1] == 0xFFFFFFFFu, "block-overwritten", "a block passed between threads lost its canary");
-          w[0] = 0;
+          volatile uint32_t* w0 = reinterpret_cast<uint32_t*>(p); (void)w0; CanaryRef w{reinterpret_cast<uint32_t*>(p)};
+          VF_CHECK(c, w.get(0) == 0xA110CA7Eu && w.get(1) == 0xFFFFFFFFu, "block-overwritten", "a block passed between threads lost its canary");
+          w.set(0, 0);
         }
         liveBlocks.fetch_sub(1);
         dispenso::deallocSmallBuffer<N>(p);
@@ -1047,11 +1056,11 @@ static void sbaOps(Case& c, const std::vector<std::string>& ops, std::vector<cha
       for (int i = 0; i < k; ++i) {
         char* p = dispenso::allocSmallBuffer<N>();
         VF_CHECK(c, reinterpret_cast<uintptr_t>(p) % N == 0, "block-misaligned", "burst block misaligned");
-        uint32_t* w = reinterpret_cast<uint32_t*>(p);
-        VF_CHECK(c, N < 8 || w[0] != 0xA110CA7Eu, "block-handed-out-twice", "burst: block still live");
+        volatile uint32_t* w0 = reinterpret_cast<uint32_t*>(p); (void)w0; CanaryRef w{reinterpret_cast<uint32_t*>(p)};
+        VF_CHECK(c, N < 8 || w.get(0) != 0xA110CA7Eu, "block-handed-out-twice", "burst: block still live");
         if (N >= 8) {
-          w[0] = 0xA110CA7Eu;
-          w[1] = (uint32_t)threadIdx;
+          w.set(0, 0xA110CA7Eu);
+          w.set(1, (uint32_t)threadIdx);
         }
         liveBlocks.fetch_add(1);
         mine.push_back(p);
@@ -1062,9 +1071,9 @@ static void sbaOps(Case& c, const std::vector<std::string>& ops, std::vector<cha
   // thread exit with cached blocks: free everything this thread still owns
   for (char* p : mine) {
     if (N >= 8) {
-      uint32_t* w = reinterpret_cast<uint32_t*>(p);
-      VF_CHECK(c, w[0] == 0xA110CA7Eu && w[1] == (uint32_t)threadIdx, "block-overwritten", "canary lost before the final free");
-      w[0] = 0;
+      volatile uint32_t* w0 = reinterpret_cast<uint32_t*>(p); (void)w0; CanaryRef w{reinterpret_cast<uint32_t*>(p)};
+      VF_CHECK(c, w.get(0) == 0xA110CA7Eu && w.get(1) == (uint32_t)threadIdx, "block-overwritten", "canary lost before the final free");
+      w.set(0, 0);
     }
     liveBlocks.fetch_sub(1);
     dispenso::deallocSmallBuffer<N>(p);
@@ -1115,7 +1124,7 @@ static void runC41T(Case& c) {
   for (auto& m : mailbox) {
     char* p = m.exchange(nullptr);
     if (p) {
-      reinterpret_cast<uint32_t*>(p)[0] = 0;
+      CanaryRef{reinterpret_cast<uint32_t*>(p)}.set(0, 0);
       liveBlocks.fetch_sub(1);
       dispenso::deallocSmallBuffer<N>(p);
     }
